@@ -567,7 +567,7 @@ impl MacroSim {
         };
         let expected = used_ever().len();
         if r != expected {
-            out.push(l2("registry-count", 0, format!("invalidate_all_with = {} (caches used so far)", expected), format!("{}", r)));
+            out.push(l2("registry-count-group", 0, format!("invalidate_all_with = {} (caches used so far)", expected), format!("{}", r)));
         }
         for st in self.fns.iter_mut() {
             if st.d.flavour == Flavour::Thread {
@@ -620,7 +620,7 @@ impl MacroSim {
         };
         let expected: i64 = self.corpus.funcs.iter().filter(|f| used.contains(&f.id) && matches(f)).count() as i64;
         if r != expected {
-            out.push(l2("registry-count", 0, format!("{} matching used caches for {}={:?}", expected, kind, s), format!("returned {}", r)));
+            out.push(l2("registry-count-group", 0, format!("{} matching used caches for {}={:?}", expected, kind, s), format!("returned {}", r)));
         }
         for st in self.fns.iter_mut() {
             if st.d.flavour == Flavour::Thread {
